@@ -361,6 +361,7 @@ def plane_box(
 
   dist = vec8f(MJ_MAXVAL)
   pos = mat83f()
+  count = int(0)
 
   # test all corners, pick bottom 4
   for i in range(8):
@@ -374,12 +375,15 @@ def plane_box(
     # get corner in global coordinates relative to box center
     corner = box_rot * corner
 
-    # compute distance to plane
+    # compute distance to plane, skip corners pointing up and keep at most 4 (as MuJoCo does)
     ldist = wp.dot(plane_normal, corner)
+    if ldist > 0.0 or count >= 4:
+      continue
     cdist = center_dist + ldist
 
     dist[i] = cdist
     pos[i] = corner + box_pos - 0.5 * plane_normal * cdist
+    count += 1
 
   return dist, pos, plane_normal
 
